@@ -763,8 +763,17 @@ func (r *runner) replayViolation(o *Obligation, params map[string]int, v interp.
 	name := fmt.Sprintf("%s-%s-%d.json", o.Name, sanitize(v.Label), time.Now().UnixNano()%1000000)
 	path := filepath.Join(dir, name)
 	vf := &vectorFile{Property: r.spec.Property, Obligation: o.Name, Pkg: o.Pkg, Harness: o.Func, Params: params, Vector: v.Model, Label: v.Label, Kind: v.Kind, Regions: v.Regions}
-	out, code := r.runNative(o, vf, path)
-	ok := nativeConfirms(o, v, out, code)
+	attempts := 1
+	if o.MapOrderChoice || o.SchedChoice {
+		attempts = 30 // native map order / scheduling is random: repeat until the chosen order shows up
+	}
+	var out string
+	var code int
+	ok := false
+	for a := 0; a < attempts && !ok; a++ {
+		out, code = r.runNative(o, vf, path)
+		ok = nativeConfirms(o, v, out, code)
+	}
 	if !ok {
 		os.Remove(path)
 	}
